@@ -31,6 +31,7 @@ type Run struct {
 	Tier    string
 	Seed    int64
 	Verif   string
+	Out     string
 	Repo    string
 	Timeout int
 	Cross   bool
@@ -53,7 +54,7 @@ type Run struct {
 }
 
 func newRun(prop, tier, verif, repo string, seed int64) *Run {
-	r := &Run{Prop: prop, Tier: tier, Seed: seed, Verif: verif, Repo: repo, t0: time.Now(), Timeout: 20,
+	r := &Run{Prop: prop, Tier: tier, Seed: seed, Verif: verif, Out: verif, Repo: repo, t0: time.Now(), Timeout: 20,
 		Assumptions: map[string]bool{}, Trusted: map[string]bool{}, Notes: map[string]interface{}{}, Funcs: map[string]string{}}
 	if tier == "thorough" {
 		r.Timeout = 120
@@ -68,7 +69,7 @@ func newRun(prop, tier, verif, repo string, seed int64) *Run {
 
 func (r *Run) workFile(name string) string {
 	n := strings.NewReplacer("/", "_", " ", "_", "(", "", ")", "", "*", "p", "[", "_", "]", "_", ":", "_", "<", "", ">", "", "=", "-", ",", "_").Replace(name)
-	return filepath.Join(r.Verif, "work", r.Prop, n+".smt2")
+	return filepath.Join(r.Out, "work", r.Prop, n+".smt2")
 }
 
 // discharge solves a batch of VCs in parallel.
@@ -105,6 +106,38 @@ func (r *Run) discharge(vcs []*VC) []*OblResult {
 		}(i, vc)
 	}
 	wg.Wait()
+	// undecided obligations get one more, less crowded attempt with a longer
+	// limit before they are reported (a timeout under load is not a verdict)
+	var again []int
+	for i, o := range out {
+		if o.Status == "undecided" {
+			again = append(again, i)
+		}
+	}
+	if len(again) > 0 && len(again) <= 64 {
+		sem2 := make(chan struct{}, 4)
+		for _, i := range again {
+			wg.Add(1)
+			sem2 <- struct{}{}
+			go func(i int) {
+				defer wg.Done()
+				defer func() { <-sem2 }()
+				vc := vcs[i]
+				res := Solve(vc.B, vc.Query, r.workFile(vc.Name), r.Timeout*4, false)
+				or := out[i]
+				or.res, or.Backend, or.Ms, or.File = res, res.Backend, res.Ms, res.File
+				switch res.Status {
+				case "unsat":
+					or.Status, or.Note = "discharged", "second attempt"
+				case "sat":
+					or.Status, or.Failed = "failed", res.Failed
+				default:
+					or.Note = res.Status + " (twice): " + firstLine(res.Raw)
+				}
+			}(i)
+		}
+		wg.Wait()
+	}
 	return out
 }
 
@@ -151,7 +184,7 @@ func (r *Run) finish(checkerCmd string) int {
 		}
 		byB[o.Backend]++
 		if len(samples) < 5 && o.File != "" {
-			rel, _ := filepath.Rel(r.Verif, o.File)
+			rel, _ := filepath.Rel(r.Out, o.File)
 			samples = append(samples, map[string]interface{}{"obligation": o.Name, "smt": rel, "result": o.Status, "backend": o.Backend, "ms": o.Ms})
 		}
 	}
@@ -191,8 +224,15 @@ func (r *Run) finish(checkerCmd string) int {
 		"violations": len(r.Violations),
 	}
 	data, _ := json.MarshalIndent(ev, "", " ")
-	os.MkdirAll(filepath.Join(r.Verif, "evidence"), 0o755)
-	os.WriteFile(filepath.Join(r.Verif, "evidence", r.Prop+".json"), append(data, '\n'), 0o644)
+	os.MkdirAll(filepath.Join(r.Out, "evidence"), 0o755)
+	os.WriteFile(filepath.Join(r.Out, "evidence", r.Prop+".json"), append(data, '\n'), 0o644)
+	if os.Getenv("VERIF_SLOW") != "" {
+		rs := append([]*OblResult{}, r.Results...)
+		sort.Slice(rs, func(i, j int) bool { return rs[i].Ms > rs[j].Ms })
+		for i := 0; i < 5 && i < len(rs); i++ {
+			fmt.Printf("SLOW %dms %s (%s)\n", rs[i].Ms, rs[i].Name, rs[i].Backend)
+		}
+	}
 	fmt.Printf("%s %s: %d obligations, %d discharged, %d violations, %d undecided, %.1fs wall, %.1fs solver\n",
 		r.Prop, r.Tier, obl, dis, len(r.Violations), len(r.Undecided), time.Since(r.t0).Seconds(), ss)
 	for _, k := range r.Known {
